@@ -30,6 +30,7 @@ let parse_descs s =
         | None -> failwith "bad p descriptor"
       else
         let body = if String.length body > 0 && body.[String.length body - 1] = 'r' then String.sub body 0 (String.length body - 1) else body in
+        let body = match String.index_opt body 'b' with Some i -> String.sub body 0 i | None -> body in
         { kind = k; size = body; prefix = body }) (split_on ',' s)
 
 (* is an m-message of this size a decodable message in this codec? (what the generator of payloads can build) *)
